@@ -2,6 +2,7 @@
 package c20
 
 import (
+	"github.com/ucan-wg/go-ucan/pkg/meta"
 	"bytes"
 	"fmt"
 	"io"
@@ -233,7 +234,7 @@ func errClass(err error) string {
 var opNames = []string{"ExecutionAllowed/hook-adds-key", "ExecutionAllowed/hook-fresh-args", "ExecutionAllowed", "ExecutionAllowedWithArgsHook", "ExecutionAllowed/alt-args", "ExecutionAllowed/alt-args", "ExecutionAllowed/incomplete-loader", "dlg.Policy.Match/alt-data", "inv.ToSealed", "inv.ToDagCbor", "inv.ToDagJson", "inv.ToSealedWriter",
 	"inv.accessors", "args.Iter", "args.String", "args.ToIPLD", "args.Equals", "args.GetNode", "args.WriteableClone",
 	"meta.Iter", "meta.String", "meta.Get", "meta.GetEncrypted", "meta.GetEncrypted", "meta.GetBytes", "dlg.Meta.GetEncrypted", "inv.IsValid",
-	"dlg.ToSealed", "dlg.ToDagJson", "dlg.accessors", "dlg.Policy.String", "dlg.Policy.Match", "dlg.Meta.String", "dlg.IsValid", "dlg.IsValidAt/what-if", "dlg.IsValidAt/what-if", "inv.IsValidAt/what-if"}
+	"dlg.ToSealed", "dlg.ToDagJson", "dlg.accessors", "dlg.Policy.String", "dlg.Policy.Match", "dlg.Meta.String", "dlg.IsValid", "dlg.IsValidAt/what-if", "dlg.IsValidAt/what-if", "inv.IsValidAt/what-if", "args.Equals/other-order", "args.Equals/other-order", "meta.Equals/other-order"}
 
 // whatIfInstants: instants a caller may ask about that are NOT now (planning, auditing, pruning): the answers are
 // facts about the token, asking changes nothing - in particular not what the token answers about other instants
@@ -260,7 +261,7 @@ func whatIf(f func(time.Time) bool) string {
 var aloneComparable = map[string]bool{"ExecutionAllowed/hook-adds-key": true, "ExecutionAllowed/hook-fresh-args": true, "ExecutionAllowed": true, "ExecutionAllowedWithArgsHook": true, "ExecutionAllowed/alt-args": true,
 	"ExecutionAllowed/incomplete-loader": true, "dlg.Policy.Match/alt-data": true, "dlg.Policy.Match": true, "dlg.Policy.String": true,
 	"args.Iter": true, "args.String": true, "args.ToIPLD": true, "args.GetNode": true, "args.WriteableClone": true, "meta.Iter": true, "meta.String": true, "meta.Get": true,
-	"dlg.IsValidAt/what-if": true, "inv.IsValidAt/what-if": true, "dlg.IsValid": true, "inv.IsValid": true}
+	"dlg.IsValidAt/what-if": true, "inv.IsValidAt/what-if": true, "dlg.IsValid": true, "inv.IsValid": true, "args.Equals/other-order": true, "meta.Equals/other-order": true}
 
 var keyTouching = map[string]bool{"ExecutionAllowed/hook-adds-key": true, "ExecutionAllowed/hook-fresh-args": true, "ExecutionAllowed/alt-args": true, "ExecutionAllowed/incomplete-loader": true, "ExecutionAllowed": true, "ExecutionAllowedWithArgsHook": true, "inv.ToSealed": true, "inv.ToDagCbor": true, "inv.ToDagJson": true,
 	"inv.ToSealedWriter": true, "args.Iter": true, "args.String": true, "args.ToIPLD": true, "args.Equals": true, "args.WriteableClone": true, "meta.Iter": true, "meta.String": true}
@@ -412,6 +413,29 @@ func (w *world) apply(op string, which int, k *keeper) (res string) {
 		return val.FromNode(n).String()
 	case "args.Equals":
 		return fmt.Sprint(w.inv.Arguments().Equals(w.inv.Arguments()))
+	case "args.Equals/other-order":
+		// compared with the same argument set filled in the opposite order, and with a different set of the same
+		// size (a comparison reads both sides)
+		rev := args.New()
+		for i := len(w.cs.Inv.Args) - 1; i >= 0; i-- {
+			_ = rev.Add(w.cs.Inv.Args[i].K, w.cs.Inv.Args[i].V.Node())
+		}
+		oth := args.New()
+		for i := len(w.cs.Inv.Args) - 1; i >= 0; i-- {
+			_ = oth.Add(w.cs.Inv.Args[i].K+"~", w.cs.Inv.Args[i].V.Node())
+		}
+		return fmt.Sprint(w.inv.Arguments().Equals(rev.ReadOnly()), rev.ReadOnly().Equals(w.inv.Arguments()), w.inv.Arguments().Equals(oth.ReadOnly()))
+	case "meta.Equals/other-order":
+		rev := meta.NewMeta()
+		var ks []string
+		var vs []ipld.Node
+		for k, v := range w.inv.Meta().Iter() {
+			ks, vs = append(ks, k), append(vs, v)
+		}
+		for i := len(ks) - 1; i >= 0; i-- {
+			_ = rev.Add(ks[i], vs[i])
+		}
+		return fmt.Sprint(w.inv.Meta().Equals(rev.ReadOnly()), rev.ReadOnly().Equals(w.inv.Meta()))
 	case "args.GetNode":
 		var sb strings.Builder
 		for _, k := range []string{"a", "b", "zz", "n"} {
